@@ -408,7 +408,7 @@ func parseColourMappingTable(r *bits.EBSPReader) (*ColourMappingTable, error) {
 	cm := &ColourMappingTable{}
 	// value shall be in the range of 0 to 61, inclusive
 	cm.NumCmRefLayersMinus1 = uint8(r.ReadExpGolomb())
-	for i := uint8(0); i <= cm.NumCmRefLayersMinus1; i++ {
+	for i := 0; i <= int(cm.NumCmRefLayersMinus1); i++ {
 		cm.RefLayerId = append(cm.RefLayerId, uint8(r.Read(6)))
 	}
 	cm.OctantDepth = uint8(r.Read(2))
